@@ -95,6 +95,11 @@ fn gen_node(rng: &mut Rng, ty: &Ty) -> Node {
         Ty::String | Ty::Str => {
             let t = *rng.pick(&["hello", "a b", "x", "12", "true", "null", "", "~", "multi word text", "é"]);
             let sty = if docgen::plain_ok(t) && !["12", "true", "null", "", "~"].contains(&t) && rng.chance(2, 3) { Sty::Plain } else { Sty::Double };
+            // block scalars (strip chomping) whose text looks like null / a number: text, never null, at every position
+            if rng.chance(1, 6) {
+                let t = *rng.pick(&["null", "~", "Null", "NULL", "true", "12", "hello", "a b"]);
+                return sc(t, if rng.chance(1, 2) { Sty::Literal } else { Sty::Folded });
+            }
             sc(t, sty)
         }
         Ty::Bytes => Node::Scalar { text: "QUJD".into(), sty: Sty::Plain, tag: Some("!!binary".into()), anchor: None },
@@ -109,8 +114,15 @@ fn gen_node(rng: &mut Rng, ty: &Ty) -> Node {
             let n = rng.below(3);
             let mut entries = Vec::new();
             for i in 0..n {
-                let key = match **k {
+                let key = match &**k {
                     Ty::Int(_, _) => sc(&(i + 1).to_string(), Sty::Plain),
+                    // complex keys: distinct by their first element
+                    Ty::Tuple(ts) if !ts.is_empty() => {
+                        let mut items: Vec<Node> = ts.iter().map(|t| gen_node(rng, t)).collect();
+                        items[0] = sc(&(i + 1).to_string(), Sty::Plain);
+                        Node::Seq { items, flow: true, tag: None, anchor: None }
+                    }
+                    Ty::Seq(_) => Node::Seq { items: (0..=i).map(|j| sc(&(j + 1).to_string(), Sty::Plain)).collect(), flow: true, tag: None, anchor: None },
                     _ => sc(["k1", "k2", "k3"][i], Sty::Plain),
                 };
                 entries.push((key, gen_node(rng, v)));
